@@ -109,6 +109,6 @@ pub fn run(ctx: &Ctx) {
             one("access-list-2^16", i, format!("{name},slots=1990"), &tx, &sigs()[4]);
         });
     }
-    { let l: Vec<usize> = crate::hist::size_ladder(ctx.thorough()).into_iter().filter(|n| ctx.thorough() || *n <= (1 << 20) + 100).collect(); crate::hist::size_runs(ctx, P, "encoding-size-runs", "Transaction from JSON, sign, encode: calldata sizes across orders of magnitude on one fresh thread", &l, crate::hist::c06_sized(ctx.seed ^ 7)); }
+    { let l: Vec<usize> = crate::hist::size_ladder(ctx.thorough()).into_iter().filter(|n| *n <= if ctx.thorough() { (1 << 22) + 1 } else { (1 << 20) + 100 }).collect(); crate::hist::size_runs(ctx, P, "encoding-size-runs", "Transaction from JSON, sign, encode: calldata sizes across orders of magnitude on one fresh thread", &l, crate::hist::c06_sized(ctx.seed ^ 7)); }
     ctx.set_extra("distinct_encodings_seen", serde_json::json!(seen.lock().unwrap().len()));
 }
